@@ -59,7 +59,8 @@ class Mutator:
         if not c:
             return None
         d, p = self.r.choice(c)
-        new = self.r.choice([x for x in ("in", "out", "inout") if sdn.Port.Direction[x.upper() if x != "inout" else "INOUT"] != p.direction])
+        names = {"in": sdn.IN, "out": sdn.OUT, "inout": sdn.INOUT, "undef": sdn.UNDEFINED}
+        new = self.r.choice([x for x in ("in", "out", "inout", "undef") if names[x] != p.direction])
         return [{"op": "set_direction", "on": self.hd(p), "v": new}]
 
     def m_port_width(self):
@@ -381,6 +382,7 @@ class C20(Prop):
             cfg["lsb"] = max(0, cfg["lsb"])
             cfg["connect_rate"] = r.choice([0.3, 0.6])
             cfg["copy"] = r.choice(["clone", "roundtrip"])
+            cfg["undef_dir_rate"] = r.choice([0.0, 0.3]) if cfg["copy"] == "clone" else 0.0
         else:
             cfg["source"] = "example"
             cfg["fmt"] = r.choice(["edf", "edf", "v", "v", "eblif"])
